@@ -95,6 +95,9 @@ def normalise(lines, keep_dump=True, keep_events=True):
         m = SITE_RE.match(l)
         if m:
             l = m.group(1)
+        if l.startswith("d n ") and (" val=Some(" in l or " val=None " in l):
+            # the per-key function of incr_filter_mapi_ returns an Option; the model writes None as () and Some(x) as x
+            l = re.sub(r" val=Some\((.*)\) cutoff=", r" val=\1 cutoff=", l).replace(" val=None ", " val=() ")
         out.append(l)
     # callbacks of one stabilise run in HashMap order (observers of a node, handlers of an observer):
     # sort maximal runs of consecutive `upd` events
